@@ -132,6 +132,7 @@ type vc struct {
 	trusted   map[string]bool
 	balDecls  map[string]bool
 	ensuresEvaluated map[string]bool
+	lookupAfterDrop  map[ssa.Value]string
 	heapSort  map[string]string
 	heapMemo  map[string]string
 	epochs    []epochInfo
